@@ -661,13 +661,24 @@ func (s *Sim) computeEnabled(cands []cand) []cand {
 		})
 	}
 	s.nReal = len(cands)
-	if nops > 0 && len(cands) == nops && len(s.timers) > 0 && !s.timers[0].noStall && !s.fair && !s.holdTime && s.cfg.Strategy.StallPermille > 0 && s.timers[0].when-s.now <= s.stallMax() {
+	if nops > 0 && len(cands) == nops && len(s.timers) > 0 && !s.timers[0].noStall && !s.fair && !s.holdTime && s.cfg.Strategy.StallPermille > 0 && s.timers[0].when-s.now <= s.stallMax() && !s.deadlineWithin(s.timers[0].when) {
 		// stall move ("time passes although work is pending"): always offered as
 		// the LAST candidate, in search and in replay, so candidate numbering is
 		// identical in both modes; the default policy never selects it.
 		cands = append(cands, cand{timer: s.timers[0], stall: true})
 	}
 	return cands
+}
+
+// deadlineWithin: some harness deadline timer expires at or before t (a stall
+// move must never make a deadline fire together with the work it bounds).
+func (s *Sim) deadlineWithin(t int64) bool {
+	for _, tm := range s.timers {
+		if tm.noStall && tm.when <= t {
+			return true
+		}
+	}
+	return false
 }
 
 func (s *Sim) stallMax() int64 {
